@@ -3,6 +3,7 @@ package hs
 import (
 	"fmt"
 	"math"
+	"math/big"
 	"sort"
 	"strconv"
 	"strings"
@@ -51,6 +52,7 @@ type RefObs struct {
 	Ret      Val
 	Singles  []string
 	MaxDepth int
+	Feat     []string // input features met during evaluation (used to identify known findings)
 }
 
 type ctlKind int
@@ -975,7 +977,47 @@ func (in *Interp) infix(n *Infix, e *env) (Val, *ctl) {
 	if c != nil {
 		return nil, c
 	}
+	in.noteBin(n.Op, l, r)
 	return BinOp(n.Op, l, r)
+}
+
+func (in *Interp) feat(f string) {
+	for _, x := range in.obs.Feat {
+		if x == f {
+			return
+		}
+	}
+	in.obs.Feat = append(in.obs.Feat, f)
+}
+
+// noteBin records operand features that identify documented deviations.
+func (in *Interp) noteBin(op string, l, r Val) {
+	op = strings.TrimSuffix(op, "=")
+	switch a := l.(type) {
+	case int64:
+		b, ok := r.(int64)
+		if ok && op == "**" && b >= 0 {
+			// the finding: operands or result not exactly representable as float64
+			big53 := int64(1) << 53
+			switch {
+			case a > big53 || a < -big53 || b > big53:
+				in.feat("int-pow-big")
+			case a >= -1 && a <= 1:
+			case b > 64:
+				in.feat("int-pow-big")
+			default:
+				exact := new(big.Int).Exp(big.NewInt(a), big.NewInt(b), nil)
+				if exact.CmpAbs(big.NewInt(big53)) > 0 {
+					in.feat("int-pow-big")
+				}
+			}
+		}
+	case float64:
+		b, ok := r.(float64)
+		if ok && op == "/" && b == 0 {
+			in.feat("float-div-zero")
+		}
+	}
 }
 
 // BinOp applies a strict binary operator.
@@ -1129,6 +1171,7 @@ func (in *Interp) assign(n *Assign, e *env) (Val, *ctl) {
 		if n.Op == "=" {
 			return r, nil
 		}
+		in.noteBin(n.Op, old, r)
 		return BinOp(strings.TrimSuffix(n.Op, "="), old, r)
 	}
 	switch t := n.L.(type) {
